@@ -166,3 +166,30 @@ Theorem c08_no_supported_cause_unreachable : forall P texts evs l from a,
   p_max_refs P <> O -> d_cause (fst (compile_with P texts evs l from a)) <> 1.
 Proof. exact no_supported_cause_unreachable. Qed.
 Print Assumptions c08_no_supported_cause_unreachable.
+
+(* 6. BOUNDARIES, evaluated on the model of the code as it is (the same inputs are in the harness corpus) *)
+Example c08_boundary_examples :
+  (* exactly `limit` messages: all of them; one more: the oldest is dropped *)
+  users (compile code16 no_texts (mkf 0 BOther :: plain_msgs 16 1) 16) = map N.of_nat (seq 1 16)
+  /\ users (compile code16 no_texts (mkf 0 BOther :: plain_msgs 17 1) 17) = map N.of_nat (seq 2 16)
+  (* anchor = head: the cut is the head; anchor followed by non-message frames only: still the head *)
+  /\ option_map (fun r => b_from (snd r)) (compile code16 no_texts (mkf 0 BOther :: plain_msgs 3 1) 3) = Some 3
+  /\ option_map (fun r => b_from (snd r)) (compile code16 no_texts (mkf 0 BOther :: plain_msgs 3 1 ++ [mkf 4 BOther; mkf 5 BOther]) 3) = Some 5
+  (* mid-thread anchor: the cut is the frame before the next message *)
+  /\ option_map (fun r => b_from (snd r)) (compile code16 no_texts (mkf 0 BOther :: plain_msgs 2 1 ++ [mkf 3 BOther; mkf 4 BMsg]) 2) = Some 3
+  (* a checkpoint whose to_seq is the anchor itself: the bundle holds the summary ref and no message *)
+  /\ option_map (fun r => b_items (snd r)) (compile code16 no_texts (mkf 0 BOther :: plain_msgs 2 1 ++ [mkf 3 (BCkpt true 2 7)]) 2)
+     = Some [ISummary 7 2]
+  (* to_seq tie: the later frame's artifact is referenced *)
+  /\ option_map (fun r => b_items (snd r)) (compile code16 no_texts (mkf 0 BOther :: plain_msgs 2 1 ++ [mkf 3 (BCkpt true 1 7); mkf 4 (BCkpt true 1 8)]) 2)
+     = Some [ISummary 8 1; IUser 2]
+  (* halving thresholds: latest to_seq 1 -> no second level; latest 2 -> threshold 1; latest 3 -> threshold 1 *)
+  /\ map ck_to (hierarchy false 9 3 [mkf 5 (BCkpt true 1 0)]) = [1]
+  /\ map ck_to (hierarchy false 9 3 [mkf 5 (BCkpt true 1 0); mkf 6 (BCkpt true 2 1)]) = [1; 2]
+  /\ map ck_to (hierarchy false 9 3 [mkf 5 (BCkpt true 1 0); mkf 6 (BCkpt true 3 1); mkf 7 (BCkpt true 2 2)]) = [1; 3]
+  /\ map ck_to (hierarchy false 9 3 [mkf 5 (BCkpt true 0 0); mkf 6 (BCkpt true 1 1)]) = [1]
+  (* unknown anchor / anchor that is not a message / empty thread: no bundle *)
+  /\ compile code16 no_texts (mkf 0 BOther :: plain_msgs 2 1) 9 = None
+  /\ compile code16 no_texts (mkf 0 BOther :: plain_msgs 2 1) 0 = None
+  /\ compile code16 no_texts [] 0 = None.
+Proof. exact boundary_examples. Qed.
